@@ -306,6 +306,14 @@ func GenGraph(r *Rand, o GraphOpts) *Graph {
 			} else if !t.CJS && r.Chance(1, 5) {
 				fmt.Fprintf(&sb, "export { %s as re%d_%s } from \"./%s\";\n", t.Exports[0], m.Index, t.Exports[0], t.Path)
 				g.stat("re-export")
+			} else if !t.CJS && o.AllowStar && t.Index != m.Index && r.Chance(1, 4) {
+				// indirect re-export under the SAME name: together with an `export *` of the same module
+				// reached through another path the binding arrives twice (must not count as ambiguous)
+				fmt.Fprintf(&sb, "export { %s } from \"./%s\";\n", t.Exports[0], t.Path)
+				if len(t.Exports) > 1 {
+					fmt.Fprintf(&sb, "export { %s } from \"./%s\";\n", t.Exports[1], t.Path)
+				}
+				g.stat("re-export-same-name")
 			}
 		}
 		fmt.Fprintf(&sb, "p(\"m%d:start\");\n", m.Index)
@@ -361,6 +369,17 @@ func GenGraph(r *Rand, o GraphOpts) *Graph {
 					continue
 				}
 			}
+			if r.Chance(1, 3) {
+				// a lazily loaded module whose body throws, loaded twice: both loads must fail the same way
+				g.Files["dynleaf.js"] = "import \"./dyndep.js\";\np(\"dyn:start\");\nexport let dx = 1;\nthrow new Error(\"dyn failed\");\n"
+				g.Files["dyndep.js"] = "p(\"dyndep\");\n"
+				g.Files["dynuser.js"] = "import { dx } from \"./dynleaf.js\";\np(\"dynuser\", dx);\n"
+				fmt.Fprintf(&sb, "export const dyn%d = import(\"./dynleaf.js\").then(ns => p(\"m%d:dyn1\", Object.keys(ns).sort()), e => p(\"m%d:dyn1-err\", e)).then(() => import(\"./dynleaf.js\")).then(ns => p(\"m%d:dyn2\", Object.keys(ns).sort(), ns.dx), e => p(\"m%d:dyn2-err\", e)).then(() => import(\"./dynuser.js\")).then(ns => p(\"m%d:dyn3\"), e => p(\"m%d:dyn3-err\", e));\n", m.Index, m.Index, m.Index, m.Index, m.Index, m.Index, m.Index)
+				g.stat("dynamic-import-throwing")
+				fmt.Fprintf(&sb, "p(\"m%d:end\");\n", m.Index)
+				m.Source = sb.String()
+				continue
+			}
 			g.Files["dynleaf.js"] = "p(\"dyn:start\");\nexport let dx = 1;\nexport function bump() { dx++; return dx; }\nexport default \"dd\";\np(\"dyn:end\");\n"
 			fmt.Fprintf(&sb, "export const dyn%d = import(\"./dynleaf.js\").then(ns => p(\"m%d:dyn\", Object.keys(ns).sort(), ns.dx, ns.bump(), ns.dx, ns.default), e => p(\"m%d:dyn-err\", e));\n", m.Index, m.Index, m.Index)
 			g.stat("dynamic-import")
@@ -405,6 +424,28 @@ func GenGraph(r *Rand, o GraphOpts) *Graph {
 		}
 		fmt.Fprintf(&sb, "late%d();\n", e)
 		m.Source = sb.String()
+	}
+	if o.AllowStar && !mods[0].CJS && r.Chance(1, 2) {
+		// star-export diamond: the same binding reaches sd_a through two `export *` paths, one of
+		// them indirect. It is NOT ambiguous (same binding) and must stay exported.
+		first := []string{"export { sx, sbump } from \"./sd_c.js\";\n", "export * from \"./sd_c.js\";\n", "export { sx } from \"./sd_c.js\";\nexport { sbump } from \"./sd_c.js\";\n"}[r.Intn(3)]
+		g.Files["sd_c.js"] = "p(\"sd_c\");\nexport let sx = 1;\nexport function sbump() { sx++; return sx; }\n"
+		g.Files["sd_b.js"] = first + "p(\"sd_b\");\nexport const sb_own = 2;\n"
+		stars := []string{"export * from \"./sd_b.js\";\n", "export * from \"./sd_c.js\";\n"}
+		if r.Bool() {
+			stars[0], stars[1] = stars[1], stars[0]
+		}
+		g.Files["sd_a.js"] = stars[0] + stars[1] + "p(\"sd_a\");\nexport const sa_own = 3;\n"
+		m0 := mods[0]
+		switch r.Intn(3) {
+		case 0:
+			m0.Source = "import * as sdns from \"./sd_a.js\";\n" + m0.Source + "p(\"m0:sd\", Object.keys(sdns).sort(), sdns.sx, sdns.sbump && sdns.sbump(), sdns.sx);\n"
+		case 1:
+			m0.Source = "export * from \"./sd_a.js\";\n" + m0.Source
+		default:
+			m0.Source = "import { sx as sdx, sbump as sdbump } from \"./sd_a.js\";\n" + m0.Source + "p(\"m0:sd\", sdx, sdbump(), sdx);\n"
+		}
+		g.stat("star-diamond")
 	}
 	if o.DualPkg {
 		g.Files["node_modules/pkg/package.json"] = "{\"name\": \"pkg\", \"main\": \"./main.js\", \"module\": \"./module.js\"}\n"
